@@ -3,6 +3,7 @@ package props
 import (
 	"fmt"
 	"strings"
+	"time"
 
 	"github.com/osteele/liquid"
 
@@ -12,9 +13,9 @@ import (
 
 func init() {
 	core.Register(&core.Prop{
-		ID:    "C18",
-		Level: "exploration",
-		Rule: "for each (template, logical environment) the canonical realisation ([]any, map[string]any, int, float64, string; no pointers, no Drops) is the baseline and 8 (quick) / 24 (thorough) alternative realisations, chosen independently at every node of the value tree, must reproduce its result (bytes, or failure). Five families, each using a representation class only where the statement names it: (1) Drops by value and by pointer at any depth + typed slices, fixed arrays and map[string]T, under generated programs with every tag and filter family; (2) every integer/float width incl. unsigned under print, all comparison operators, case/when and the arithmetic filters; (3) pointers on values reached by variable or property lookup; (4) yaml.MapSlice under lookup and size; (5) []byte under printing and as string-filter receiver. Non-trivial = the alternative realisation differs from the canonical one in at least one node; distinct = distinct (template, realisation descriptor).",
+		ID:         "C18",
+		Level:      "exploration",
+		Rule:       "for each (template, logical environment) the canonical realisation ([]any, map[string]any, int, float64, string; no pointers, no Drops) is the baseline and 8 (quick) / 24 (thorough) alternative realisations, chosen independently at every node of the value tree, must reproduce its result (bytes, or failure). Five families, each using a representation class only where the statement names it: (1) Drops by value and by pointer at any depth + typed slices, fixed arrays and map[string]T, under generated programs with every tag and filter family; (2) every integer/float width incl. unsigned under print, all comparison operators, case/when and the arithmetic filters; (3) pointers on values reached by variable or property lookup; (4) yaml.MapSlice under lookup and size; (5) []byte under printing and as string-filter receiver. Non-trivial = the alternative realisation differs from the canonical one in at least one node; distinct = distinct (template, realisation descriptor).",
 		Exhaustive: func(string) bool { return false },
 		Assumptions: []string{
 			"json, inspect and type expose the Go representation by design and are not used",
@@ -210,7 +211,7 @@ func runC18(c *core.Ctx) {
 	}
 	// ---- (4) ordered maps: lookup and size -----------------------------------------------------------
 	msT := []string{"{{ m.a }}", "{{ m['a'] }}", "{{ m.size }}", "{{ m.zz }}|{{ m['zz'] }}", "{{ m.inner.j }}", "{{ m[key] }}", "{{ m.inner.size }}", "{{ m.inner['j'] }}{{ m.b }}",
-		"{% if m.a == 1 %}T{% endif %}", "{% assign v = m.b %}{{ v }}", "{{ ms.size }}|{{ ms.first }}"}
+		"{% if m.a == 1 %}T{% endif %}", "{% assign v = m.b %}{{ v }}", "{{ ms.size }}|{{ ms.first }}", "[{{ msn.size }}]|{{ msn.a }}|{% if msn.size %}T{% else %}F{% endif %}", "{{ mse.size }}|{{ mse.a }}"}
 	for i := 0; i < len(msT)*c.Pick(20, 200); i++ {
 		if !c.Mine(i) {
 			continue
@@ -220,7 +221,8 @@ func runC18(c *core.Ctx) {
 		inner := gen.Map(gen.KV{K: "j", V: gen.Str("jay")}, gen.KV{K: "q", V: gen.Int(int64(r.Range(0, 9)))})
 		env := gen.Env{{K: "key", V: gen.Str([]string{"a", "b", "zz"}[r.Intn(3)])},
 			{K: "m", V: gen.Map(gen.KV{K: "a", V: gen.Int(1)}, gen.KV{K: "b", V: gen.Str("bee")}, gen.KV{K: "inner", V: inner})},
-			{K: "ms", V: gen.Map(gen.KV{K: "size", V: gen.Int(77)}, gen.KV{K: "first", V: gen.Str("f")})}}
+			{K: "ms", V: gen.Map(gen.KV{K: "size", V: gen.Int(77)}, gen.KV{K: "first", V: gen.Str("f")})},
+			{K: "msn", V: gen.Map(gen.KV{K: "size", V: gen.Nil}, gen.KV{K: "a", V: gen.Int(1)})}, {K: "mse", V: gen.Map()}}
 		if !c.Begin("mapslice:" + src + " env=" + env.String()) {
 			continue
 		}
@@ -240,6 +242,38 @@ func runC18(c *core.Ctx) {
 			continue
 		}
 		c18Compare(c, e, "bytes", src, env, gen.Rep{Bytes: true}, 2, i)
+	}
+	// ---- (6) times: a *time.Time reached by variable or property lookup behaves as the time.Time ----------------
+	tmT := []string{"{{ tm }}", "{{ tm | date: '%Y-%m-%d %H:%M:%S' }}", "{{ h.tm }}|{{ h.tm | date: '%j' }}", "{{ st.T }}|{{ st.T | date: '%b %d, %y' }}", "{% assign v = tm %}{{ v }}{{ v | date: '%s' }}",
+		"{% if tm %}T{% endif %}{{ tm | date: '%Y' | plus: 1 }}", "{% for x in one %}{{ tm | date: '%H' }}{% endfor %}{% capture c %}{{ tm }}{% endcapture %}{{ c | size }}"}
+	for i := 0; i < len(tmT)*c.Pick(6, 60); i++ {
+		if !c.Mine(i) {
+			continue
+		}
+		r := c.Rand(i, 6)
+		src := tmT[i%len(tmT)]
+		t0 := time.Date(1990+r.Intn(60), time.Month(1+r.Intn(12)), 1+r.Intn(28), r.Intn(24), r.Intn(60), r.Intn(60), 0, time.UTC)
+		if !c.Begin(fmt.Sprintf("times:%s %v", src, t0)) {
+			continue
+		}
+		type holder struct{ T any }
+		mk := func(ptr bool) map[string]any {
+			var v any = t0
+			if ptr {
+				tc := t0
+				v = &tc
+			}
+			return map[string]any{"tm": v, "h": map[string]any{"tm": v}, "st": holder{T: v}, "one": []any{1}}
+		}
+		base, alt := core.Run(e, src, mk(false)), core.Run(e, src, mk(true))
+		c.Eval(2)
+		c.Obs("alternative_realisations_compared", 1)
+		c.Obs("family:times", 1)
+		c.Distinct(src, t0.String())
+		if !base.OK() || !alt.Same(base) {
+			c.Violate("times|"+resClass(alt)+"|"+c18Feature(src), "a *time.Time reached by variable or property lookup must behave as the time.Time it points to",
+				map[string]any{"source": src, "time": t0.String(), "with_time.Time": base.Brief(), "with_*time.Time": alt.Brief()})
+		}
 	}
 	_ = fmt.Sprint
 }
